@@ -174,6 +174,11 @@ class CallMixin(ExprMixin):
             if c.gen in ("copy", "buf", "producer"):
                 # calling a generator function creates a generator object (no code runs yet)
                 return [(st, self.new_generator_object(st, ctx, fi, c, args, kwargs, line))]
+            if c.gen == "env" and fi.is_generator and any(d.endswith("contextmanager") for d in fi.decorators):
+                # a context-manager generator: its contract is for its own verification; in a `with` statement of a caller
+                # its real body is interpreted around the caller's block (callers do not depend on the contract)
+                self.inlined.add(key)
+                return self.inline_call(st, ctx, fi, args, kwargs, line, env)
             return self.apply_contract(st, ctx, fi, c, args, kwargs, line)
         if fi.trusted:
             self.trusted_used.add(key)
@@ -590,15 +595,17 @@ class CallMixin(ExprMixin):
     def apply_call_hints(self, st: State, ctx: Ctx, fi: FuncInfo, pre_state: State, res: Any, line: int) -> None:
         """Proof hints of the *caller's* contract: clauses proved, then assumed, right after a call to `fi` returns.
         In a hint, `old(...)` is the caller's entry state and `pre(...)` the state just before the call."""
-        if not ctx.top or ctx.contract is None:
+        # hints belong to the function under verification; they also apply to calls made from code inlined into it
+        top = self.top_ctx if self.top_ctx is not None else ctx
+        if top.contract is None:
             return
-        hints = ctx.contract.env.get("call_hints", {}).get(fi.qualname) or ctx.contract.env.get("call_hints", {}).get(fi.name)
+        hints = top.contract.env.get("call_hints", {}).get(fi.qualname) or top.contract.env.get("call_hints", {}).get(fi.name)
         if not hints:
             return
         from .contracts import _clauses
-        hctx = ctx.sub(spec=True)
+        hctx = top.sub(spec=True)
         hctx.specials["result"] = res
-        hctx.specials["$pre"] = (pre_state, ctx.frame)
+        hctx.specials["$pre"] = (pre_state, top.frame)
         for cl in _clauses(hints):
             g = self.eval_clause(cl, st, hctx)
             self.oblige(st, g, "hint", line, f"after-{fi.name}:{cl.name}", cl.tags)
